@@ -121,7 +121,8 @@ MC.update({
     "C02": {"quick": [_mc("rw1"), _mc("rw1h"), _mc("lfsw_nf0"), _mc("bug_hslot", "Refines")],
             "thorough": [_mc("rw1"), _mc("rw1h"), _mc("rw1h_nf0"), _mc("lfsw"), _mc("lfsw_nf0"), _mc("2r1w"), _mc("2r1w_nf0"), _mc("rcu2"), _mc("bug_hslot", "Refines")]},
     "C03": {"quick": [_mc("rw1"), _mc("rw1_nf0"), _mc("lfsw"), _mc("2c"), _mc("bug_confirm", "Refines")],
-            "thorough": [_mc("rw1"), _mc("rw1_nf0"), _mc("rw1_nf2"), _mc("lfsw"), _mc("lfsw_nf0"), _mc("2c"), _mc("2c_nf0"), _mc("2r1w"), _mc("2r1w_nf0"), _mc("rculd", simulate=40000, timeout=2400), _mc("bug_confirm", "Refines")]},
+            "thorough": [_mc("rw1"), _mc("rw1_nf0"), _mc("rw1_nf2"), _mc("lfsw"), _mc("lfsw_nf0"), _mc("2c"), _mc("2c_nf0"), _mc("2r1w"), _mc("2r1w_nf0"), _mc("rculd", simulate=40000, timeout=2400), _mc("bug_confirm", "Refines"),
+                         _mc("hc", timeout=3600, workers=14), _mc("bug_hc_space", "EnvelopeLinear", timeout=3600, workers=14), _mc("bug_hc_addr", "Refines", timeout=3600, workers=14)]},
     "C04": {"quick": [_mc("lfsw"), _mc("lfsw_nf0"), _mc("rcust")],
             "thorough": [_mc("lfsw"), _mc("lfsw_nf0"), _mc("rcust"), _mc("rcu2"), _mc("1r2w", simulate=40000, timeout=2400), _mc("1r2w_nf0", simulate=40000, timeout=2400)]},
     "C05": {"quick": [_mc("rcust"), _mc("cas"), _mc("cas2")], "thorough": [_mc("rcust"), _mc("cas"), _mc("cas2"), _mc("cas_nf0"), _mc("rcu2"), _mc("rcu2_nf0", simulate=40000, timeout=2400), _mc("rculd", simulate=40000, timeout=2400)]},
@@ -133,7 +134,7 @@ MC.update({
     "C10": {"quick": [_mc("rw1h"), _mc("rw1h_nf0"), _mc("churn")],
             "thorough": [_mc("rw1h"), _mc("rw1h_nf0"), _mc("churn"), _mc("churn2")]},
     "C11": {"quick": [_mc("churn"), _mc("churn_nf0")], "thorough": [_mc("churn"), _mc("churn_nf0"), _mc("churn2")]},
-    "C12": {"quick": [_mc("2c"), _mc("2c_nf0")], "thorough": [_mc("2c"), _mc("2c_nf0")]},
+    "C12": {"quick": [_mc("2c"), _mc("2c_nf0")], "thorough": [_mc("2c"), _mc("2c_nf0"), _mc("hc", timeout=3600, workers=14), _mc("bug_hc_addr", "Refines", timeout=3600, workers=14)]},
     "C13": {"quick": [_mc("wrap_fixed"), _mc("wrapw_fixed"), _mc("wrap_code", "Refines")],
             "thorough": [_mc("wrap_fixed"), _mc("wrapw_fixed"), _mc("wrap_code", "Refines")]},
     "C16": {"quick": [_mc("cache"), _mc("cache_nf0"), _mc("bug_cache", "Refines")],
@@ -170,7 +171,7 @@ MANIFEST_TEXT = {
     "C16": {"text": "Cache::new / Cache::load (Relaxed pointer compare + load_full, release of the superseded value) are actions of ArcSwapImpl, model-checked against the cache clauses of ArcSwapAbs (seeded model bug 'never revalidates' must be caught). Cache clauses of ArcSwapAbs (value returned was stored during the call, i.e. current-or-newer and never older than the previous result) on concurrent executions incl. a store landing at every point inside Cache::load followed by address reuse; sequential cache programs via SeqGen."},
     "C17": {"text": "Projection guards through Access, Map (static), Box<dyn DynAccess>, Map of Map, AccessConvert and ArcSwapAny::map: the snapshot shown is one value stored during the load, stays the same and alive for the guard's life while stores happen."},
     "C18": {"text": "Fault enumeration: panicking destructors at every site where the library drops a value (displaced by store, rejected by compare_and_swap/rcu, candidate of a helped fallback load, guard drop) and panicking rcu closures on attempt 1..3, under contention; after unwinding the ledger clauses must hold (tagged C18)."},
-    "C19": {"text": "TLC evaluates the auto-trait algebra of spec/AutoTraits.tla (220 instantiations) incl. its soundness clause; rustc answers the same 440 questions about the real types through a compile-time probe; each row must be sound and, except DynGuard, exact.", "technique": "TLA+ table (AutoTraits.tla) evaluated by TLC, compared with rustc's answers"},
+    "C19": {"text": "TLC evaluates the auto-trait algebra of spec/AutoTraits.tla (440 instantiations: handles Arc/&/Rc/Box, projections thread-bound/shareable) incl. its soundness clause; rustc answers the same 880 questions about the real types through a compile-time probe; each row must be sound and, except DynGuard, exact.", "technique": "TLA+ table (AutoTraits.tla) evaluated by TLC, compared with rustc's answers"},
     "C20": {"text": "Value shapes enumerated by TLC (SerdeShapes.tla); for each: serialize(container) = serialize(stored pointer), deserialize gives the value with a single reference, round trip, for ArcSwap / ArcSwapOption (Some, None) under 3 strategies.", "technique": "TLC-enumerated inputs, relational oracle on the real serde impls"},
 }
 
@@ -473,7 +474,7 @@ def traits_stage(tier, seed, key, P):
             if unsound or illiberal:
                 why = ("%s<%s<%s>> (%s strategy) is %s although %s" %
                        (w["wrapper"], w["ptr"], w["pointee"], w["strategy"], tr_.capitalize() if g[tr_] else "not " + tr_.capitalize(),
-                        "the pointer it stores must not be " + ("sent" if tr_ == "send" else "shared") if unsound else "the pointer it stores may be"))
+                        "a part of it (the stored pointer, the handle to the container or the projection) must not be " + ("sent" if tr_ == "send" else "shared") if unsound else "all its parts may be"))
                 viols.append({"id": 0, "prop": "C19", "why": why, "spec": "AutoTraits", "ev": {"expected": w, "rustc": g}, "fam": "traits", "key": "C19/%s/%s/%s/%s" % (k[0], k[1], k[2], tr_)})
     if viols:
         os.makedirs(P.REPLAYS, exist_ok=True)
@@ -483,7 +484,7 @@ def traits_stage(tier, seed, key, P):
             v["replay"] = rp
     return {"viols": viols[:10], "traces": checked,
             "coverage": {"states": max(1, st), "transitions": max(1, tr), "table_rows": len(want), "rows_checked": checked,
-                         "explanation": "TLC evaluates the auto-trait algebra of spec/AutoTraits.tla (220 instantiations: 11 wrappers x 5 pointer kinds x 4 pointee classes, 2 strategies) and checks its own soundness clause; rustc decides the same 440 questions about the real types; every row must be sound, and exact except for DynGuard"},
+                         "explanation": "TLC evaluates the auto-trait algebra of spec/AutoTraits.tla (440 instantiations: 22 wrapper forms - incl. Rc / Box / Arc / & handles to the container and thread-bound vs. shareable projections - x 5 pointer kinds x 4 pointee classes) and checks its own soundness clause; rustc decides the same 880 questions about the real types; every row must be sound, and exact except for DynGuard"},
             "samples": want[:3]}
 
 
@@ -500,6 +501,19 @@ def serde_stage(tier, seed, key, P):
     if r.returncode != 0:
         raise P.ToolError("asv seq serde failed: " + r.stderr[-1000:])
     res = json.loads(r.stdout.strip().splitlines()[-1])
+    # histories: earlier failed serializations on the same thread, nested containers (also enumerated by TLC)
+    hists, st2, tr2 = _tlc_lines(P, "SerdeShapes.tla", "SPECIFICATION Spec\nINVARIANT EmitH\n", "HIST", wd, workers=1)
+    hpath = os.path.join(wd, "hist.ndjson")
+    with open(hpath, "w") as f:
+        for h in hists:
+            f.write(json.dumps(h) + "\n")
+    r = subprocess.run([P.ASV, "seq", "serde_hist", hpath], stdout=subprocess.PIPE, stderr=subprocess.PIPE, text=True, timeout=900)
+    if r.returncode != 0:
+        raise P.ToolError("asv seq serde_hist failed: " + r.stderr[-1000:])
+    res2 = json.loads(r.stdout.strip().splitlines()[-1])
+    res["failures"] = res["failures"] + res2["failures"]
+    res["checks"] += res2["checks"]
+    st, tr = st + st2, tr + tr2
     viols = []
     for fl in res["failures"][:5]:
         os.makedirs(P.REPLAYS, exist_ok=True)
@@ -507,8 +521,8 @@ def serde_stage(tier, seed, key, P):
         json.dump(fl, open(rp, "w"))
         viols.append({"id": 0, "prop": "C20", "why": "[%s strategy] %s" % (fl["strategy"], fl["why"]), "spec": "SerdeShapes", "ev": {}, "fam": "serde", "key": "C20/" + fl["why"][:50], "replay": rp})
     return {"viols": viols, "traces": res["checks"],
-            "coverage": {"evaluations": res["checks"], "distinct_nontrivial": len(shapes), "value_shapes": len(shapes),
-                         "rule": "value shapes enumerated by TLC from spec/SerdeShapes.tla (scalars, strings, sequences, nested structures) x {ArcSwap, ArcSwapOption Some/None} x 3 default-constructible strategies; non-trivial = every shape"},
+            "coverage": {"evaluations": res["checks"], "distinct_nontrivial": len(shapes) + len(hists), "value_shapes": len(shapes), "histories": len(hists),
+                         "rule": "value shapes enumerated by TLC from spec/SerdeShapes.tla (scalars, strings, sequences, nested structures) x {ArcSwap, ArcSwapOption Some/None} x 3 default-constructible strategies; plus histories (1..300 earlier serializations failing with an error / a panic inside the pointee, on the same thread; containers nested 1..150 deep): failures are reported transparently and leave no trace; non-trivial = every shape / history"},
             "samples": shapes[::40]}
 
 
